@@ -69,10 +69,12 @@ PerturbShapes ==
   {<<zs, "cycle", FALSE, "mixed">> : zs \in (IF Quick THEN { <<255>>, <<0, 255>>, <<5, 200, 5>>, <<0, 1, 254, 255>>, <<200, 200>> } ELSE SmallZs)}
   \cup {<<zs, "pair", TRUE, "mixed2">> : zs \in (IF Quick THEN { <<5, 200, 5, 255, 0, 200, 77>> } ELSE {z \in SmallZs : Len(z) >= 3})}
   \cup {<<Pattern(n, "two"), "cycle", FALSE, "mixed">> : n \in (IF Quick THEN {2 * NCpu + 3} ELSE {NCpu + 1, 2 * NCpu + 3, 100})}
-MpSeq == SetToSeq(IF Part = "mp_cpu" THEN CpuShapes ELSE IF Part = "mp_perturb" THEN PerturbShapes ELSE MpShapes)
+ArrivalShapes == {<<Pattern(n, p), "cycle", sh, "mixed">> : n \in {NCpu - 1, NCpu + 1, 2 * NCpu + 3}, p \in {"two", "blocks"}, sh \in {FALSE}}
+MpSeq == SetToSeq(IF Part = "mp_arrival" THEN ArrivalShapes ELSE IF Part = "mp_cpu" THEN CpuShapes ELSE IF Part = "mp_perturb" THEN PerturbShapes ELSE MpShapes)
 MpProgs == [k \in 1 .. Len(MpSeq) |->
               [kind |-> "mp", label |-> Labels[(k % Len(Labels)) + 1], polys |-> PolyTab,
                ops |-> Ops(MpSeq[k][1], PolyAssign(Len(MpSeq[k][1]), MpSeq[k][2]), MpSeq[k][3], MpSeq[k][4]),
+               arrival |-> IF Part = "mp_arrival" THEN <<"rev", "rot", "evenodd">>[(k % 3) + 1] ELSE "",
                perturb |-> IF Part # "mp_perturb" THEN <<>>
                            ELSE IF Quick THEN [j \in 1 .. 8 |-> AllPerturb[((k * 8 + j + Seed) % Len(AllPerturb)) + 1]]
                            ELSE AllPerturb]]
@@ -93,7 +95,7 @@ ReadProgs == {[kind |-> "read", src |-> s, bytes |-> b, reader |-> r, pos |-> p]
                      s \in {"mp", "ipa"}, b \in {"valid", "trail1"}, r \in {"err@0", "err@1", "err@31", "err@32", "err@33", "err@543", "err@544", "err@545", "err@575", "err@576", "err@577"}}
 WriteProgs == {[kind |-> "write", src |-> s, fault |-> f] : s \in {"mp", "ipa"}, f \in 0 .. 19}
 
-Progs == IF Part \in {"mp_honest", "mp_cpu", "mp_perturb"} THEN MpProgs
+Progs == IF Part \in {"mp_honest", "mp_cpu", "mp_perturb", "mp_arrival"} THEN MpProgs
          ELSE IF Part \in {"ipa", "ipa_few"} THEN SetToSeq(IpaProgs)
          ELSE IF Part = "codec" THEN SetToSeq(ReadProgs \cup WriteProgs)
          ELSE MpProgs \o SetToSeq(IpaProgs) \o SetToSeq(ReadProgs \cup WriteProgs)
